@@ -19,5 +19,8 @@ PREFIXES = ('C13:',)
 def run(ctx):
     sc.design_mc(ctx, "C13", ["MC_Scheduler_small.cfg"], [])
     st = sc.execute(ctx, sc.matrix(ctx.tier, "weak"), PREFIXES)
+    first = st.pop("_first_trace", None)
+    if ctx.tier == "thorough" and first and not ctx.violations:
+        sc.binding_demo(ctx, first)
     ctx.cov.update({"driver": st, "rule": sc.RULE, "plans": sc.GC_PLANS})
 
